@@ -4,8 +4,8 @@
        iterator (krrood 1997e3c: positional replay of a per-round snapshot, one new element per round, cached ids skipped)
        is [rstep]/[rrun]: proved for EVERY domain and EVERY schedule.  [hstep]/[run] model the PREVIOUS iterator and are
        kept as regression statements (what used to fail, and the fragment on which it was correct);
-   (b) whole evaluations threaded through the surviving state (Eql/Reeval.v): history-independent on the rule-free
-       conjunctive fragment, any domains; refuted for rule queries (selector memory, still open);
+   (b) whole evaluations threaded through the surviving state (Eql/Reeval.v): history-independent on the conjunctive
+       fragment INCLUDING rule queries with a refinement (selector memory forgotten at the start of an evaluation, a3cd335);
        the Exists node's de-duplication memory (Eql/ReevalExists.v): isolated because it is per evaluation;
    (c) whole evaluations interleaved step by step: NOT proved -- Eql/DomainCacheSched.v is an executable prediction that
        the harness compares with the implementation on enumerated schedules. *)
@@ -35,25 +35,27 @@ Theorem C03_cache_any_schedule_empty : forall (ops : list op) (h : nat) (st : rs
 Proof. exact cache_any_schedule_empty. Qed.
 
 (* ================= (b) whole evaluations ================= *)
-(* a whole evaluation of a rule-free conjunctive query from any state whose caches stand for the world W (cold, warm,
-   partially filled) yields the isolated rows over W and leaves such a state; [C03_cold_is_good]: W = the de-duplicated domains *)
-Theorem C03_reeval_isolated : forall (W : world) (A : attrs) (c0 : list (list Z)) (q : query) (s : qstate),
-  q_rule q = None -> good W c0 s ->
-  fst (Reeval.run A s q) = iso_rows W A q /\ good W c0 (snd (Reeval.run A s q)).
+(* a whole evaluation of ANY query of the fragment -- rule-free or carrying a rule with a refinement -- from any state
+   whose caches stand for the world W (cold, warm, partially filled) and whose selector memory holds anything, yields the
+   isolated rows over W and leaves such a state (the selector memory is forgotten when an evaluation starts: krrood a3cd335);
+   [C03_cold_is_good]: W = the de-duplicated domains *)
+Theorem C03_reeval_isolated : forall (W : world) (A : attrs) (q : query) (s : qstate),
+  good W s ->
+  fst (Reeval.run A s q) = iso_rows W A q /\ good W (snd (Reeval.run A s q)).
 Proof. exact run_isolated. Qed.
 
-Theorem C03_reeval_idempotent : forall (W : world) (A : attrs) (c0 : list (list Z)) (q : query) (s : qstate),
-  q_rule q = None -> good W c0 s ->
+Theorem C03_reeval_idempotent : forall (W : world) (A : attrs) (q : query) (s : qstate),
+  good W s ->
   fst (Reeval.run A (snd (Reeval.run A s q)) q) = fst (Reeval.run A s q).
 Proof. exact reeval_idempotent. Qed.
 
-(* any history of whole evaluations of rule-free queries sharing variables: each yields its isolated rows *)
-Theorem C03_history_independent : forall (W : world) (A : attrs) (c0 : list (list Z)) (qs : list query) (s : qstate),
-  Forall (fun q => q_rule q = None) qs -> good W c0 s ->
+(* any history of whole evaluations of queries sharing variables (rule queries re-evaluated included): each yields its isolated rows *)
+Theorem C03_history_independent : forall (W : world) (A : attrs) (qs : list query) (s : qstate),
+  good W s ->
   hist A s qs = map (iso_rows W A) qs.
 Proof. exact hist_isolated. Qed.
 
-Theorem C03_cold_is_good : forall W : world, good (map dedup W) [] (cold W).
+Theorem C03_cold_is_good : forall W : world, good (map dedup W) (cold W).
 Proof. exact good_cold. Qed.
 
 (* the link between the two models: what a whole evaluation does with a variable is a fresh handle of the current
@@ -61,12 +63,6 @@ Proof. exact good_cold. Qed.
 Theorem C03_iter_full_is_exhaust : forall (d : dstate) (w : list Z), dgood d w ->
   rexhaust (S (S (length w))) d (RLive 0 []) [] = Some (iter_full d).
 Proof. exact iter_full_exhaust. Qed.
-
-(* STILL OPEN -- rule query with a refinement: the selector remembers every binding it concluded for; second evaluation empty *)
-Theorem C03_refuted_rule_reeval :
-  hist A_w (cold W_w) [q_rule_w; q_rule_w] = [[[0; 11]; [1; 12]; [1; 13]]; []] /\
-  iso_rows W_w A_w q_rule_w = [[0; 11]; [1; 12]; [1; 13]].
-Proof. exact refuted_rule_reeval. Qed.
 
 (* the de-duplication memory of an Exists node: local to the evaluation (the code as it is) => any number of evaluations of
    the node in ANY interleaving each yield one result per key; kept on the node and cleared at start => refuted *)
@@ -108,6 +104,13 @@ Theorem C03_refuted_dup :
   hs (DomainCache.run sched_dup (init [7; 7])) = [(HDone, [7; 7]); (HDone, [7])].
 Proof. exact refuted_dup. Qed.
 
+(* before a3cd335 the selector memory was never reset: second evaluation of a rule query empty (model [run_old]); now equal *)
+Theorem C03_refuted_rule_reeval :
+  hist_old A_w (cold W_w) [q_rule_w; q_rule_w] = [[[0; 11]; [1; 12]; [1; 13]]; []] /\
+  iso_rows W_w A_w q_rule_w = [[0; 11]; [1; 12]; [1; 13]] /\
+  hist A_w (cold W_w) [q_rule_w; q_rule_w] = [[[0; 11]; [1; 12]; [1; 13]]; [[0; 11]; [1; 12]; [1; 13]]].
+Proof. exact refuted_rule_reeval_old. Qed.
+
 (* the same three schedules on the current iterator *)
 Example C03_current_on_old_witnesses :
   rhs (rrun (sched_lost ++ [Next 0]%nat) (rinit [1; 2])) = [(RDone, [1; 2]); (RDone, [1; 2])] /\
@@ -124,7 +127,7 @@ Example C03_nonvacuous :
   (let q := {| q_sel := [0%nat; 1%nat]; q_conds := [ACmpC 0 Cge 1; ACmpV 0 Clt 1]; q_rule := None |} in
    let W := [[10; 11; 12]; [20; 21]] in
    let A := [(10, 0); (11, 1); (12, 2); (20, 2); (21, 3)] in
-   good (map dedup W) [] (cold W) /\
+   good (map dedup W) (cold W) /\
    hist A (cold W) [q; q] = [[[11; 20]; [11; 21]; [12; 21]]; [[11; 20]; [11; 21]; [12; 21]]]) /\
   rhs (rrun [Create; Next 0; Create; Next 1; Next 0; Create; Abandon 2; Create; Next 3]%nat (rinit []))
   = [(RDone, []); (RDone, []); (RClosed, []); (RDone, [])].
@@ -140,10 +143,10 @@ Print Assumptions C03_reeval_idempotent.
 Print Assumptions C03_history_independent.
 Print Assumptions C03_cold_is_good.
 Print Assumptions C03_iter_full_is_exhaust.
-Print Assumptions C03_refuted_rule_reeval.
 Print Assumptions C03_exists_local_isolated.
 Print Assumptions C03_refuted_shared_exists_memory.
 Print Assumptions C03_old_cache_sequential.
 Print Assumptions C03_old_cache_warm_any_schedule.
 Print Assumptions C03_refuted_interleave.
 Print Assumptions C03_refuted_dup.
+Print Assumptions C03_refuted_rule_reeval.
